@@ -27,6 +27,8 @@ def harnesses():
         'H8-frame-reader': dict(ctype='frame', old=True, callers=[('A', 'force', None), ('B', 'goc', None)]),
         'H6-two-writers-reader': dict(ctype='json', old=False, callers=[('A', 'goc', None), ('B', 'force', None)]),
         # lock hand-over A -> reader -> B: A and B both miss, A stores and returns, a reader that starts then is loading while B (queued behind A) stores
+        # ONE cache directory opened in two ways: as a sub-cache of its parent (what `cached` does) and directly by its path
+        'H11-two-openings': dict(ctype='json', old=False, callers=[('A', 'goc', None), ('B', 'force', None)], opening={'A': 'sub', 'B': 'direct'}),
         'H10-handover': dict(ctype='json', old=False, callers=[('A', 'goc', None), ('B', 'goc', None), ('G', 'get', 'A')]),
     }
 
@@ -85,9 +87,14 @@ def execute(hname, choices, procs=False):
         bodies = []
         run_holder = []
 
+        opening = h.get('opening')
+        if opening:
+            top = d
+            d = os.path.join(top, 'features')
+
         def body_for(name, kind):
             def body():
-                c = make_cache(ctype, d)
+                c = make_cache(ctype, d) if not opening or opening[name] == 'direct' else make_cache(ctype, top).subcache('features')
 
                 def comp():
                     run_holder[0].point('compute', name)
@@ -125,7 +132,7 @@ def execute(hname, choices, procs=False):
             final = 'missing'
         return run, computed, final
     finally:
-        scratch.drop(d)
+        scratch.drop(top if opening else d)
 
 
 def judge(hname, run, computed, final):
@@ -406,8 +413,8 @@ def free_running_smoke(rounds=15):
 
 PLAN = {
     'quick': [('H1-empty', 2, False), ('H2-present-forced', 2, True), ('H4-happens-before', 2, True), ('H6-two-writers-reader', 3, False), ('H3-two-forced', 2, True),
-              ('H7-numpy-reader', 2, True), ('H8-frame-reader', 2, True), ('H10-handover', 4, True)],
-    'thorough': [('H1-empty', 3, False), ('H2-present-forced', 3, True), ('H3-two-forced', 3, True), ('H4-happens-before', 4, True), ('H5-numpy', 2, True), ('H6-two-writers-reader', 8, False), ('H7-numpy-reader', 4, True), ('H8-frame-reader', 4, True), ('H10-handover', 5, True)],
+              ('H7-numpy-reader', 2, True), ('H8-frame-reader', 2, True), ('H10-handover', 4, True), ('H11-two-openings', 2, False)],
+    'thorough': [('H1-empty', 3, False), ('H2-present-forced', 3, True), ('H3-two-forced', 3, True), ('H4-happens-before', 4, True), ('H5-numpy', 2, True), ('H6-two-writers-reader', 8, False), ('H7-numpy-reader', 4, True), ('H8-frame-reader', 4, True), ('H10-handover', 5, True), ('H11-two-openings', 4, False)],
 }
 
 
